@@ -77,6 +77,7 @@ def run(ctx):
     rep.floor('R2b', 3)
     rep.floor('R2c', 1)
     rep.floor('R3', 4)
+    rep.floor('R3d', 4)
     rep.floor('R4', 14)
     rep.floor('R5', 6)
 
@@ -541,6 +542,43 @@ def norms(ctx, table):
             rep.unk('R3', name, str(e))
     for name in ('a_real_norm', 'a_real_norm_'):
         norm_loops(ctx, name, table)
+    norm_divisions(ctx)
+
+
+def norm_divisions(ctx):
+    """R3d: "norms do not overflow or underflow when the true result is representable" rests on every quotient formed being a
+    component over the largest magnitude (<= 1).  A division whose dividend is a constant - the reciprocal 1 / w of the scale, to
+    multiply by afterwards - overflows for a subnormal scale although the norm itself is representable: def-use rule on the IR"""
+    rep = ctx.rep
+    for name in ('a_real_norm2', 'a_real_norm3', 'a_real_norm', 'a_real_norm_'):
+        fn = ctx.fn('math', name)
+        if fn is None:
+            rep.unk('R3d', name, 'anchor vanished')
+            continue
+        divs = [i for i in fn.instrs() if i.op == 'fdiv']
+        if not divs:
+            rep.unk('R3d', name, 'no division found: the scaling of the components is not recognised')
+            continue
+        bad = []
+        for i in divs:
+            num = i.ops[0]
+            src = fn.defs.get(num.v) if num.k == 'reg' else None
+            seen = 0
+            # look through the conversions / negations / fabs between a component and the division
+            while src is not None and seen < 6 and (src.op in ('fpext', 'fptrunc', 'fneg', 'bitcast') or
+                                                   (src.op == 'call' and str(effects.callee_name(src) or '').startswith(('llvm.fabs', 'fabs')))):
+                o = src.ops[0]
+                src = fn.defs.get(o.v) if o.k == 'reg' else None
+                num = o
+                seen += 1
+            if num.k in ('fp', 'int'):
+                bad.append((i, 'the constant %s is divided by a computed value (a reciprocal of the scale overflows when the scale is subnormal)' % (num.v,)))
+            elif src is not None and src.op in ('fdiv',):
+                bad.append((i, 'a quotient is divided again'))
+        if bad:
+            rep.bad('R3d', name, '; '.join(sorted(set(b[1] for b in bad))), loc=fn.loc(bad[0][0]), key='%s: reciprocal of the scale' % name)
+        else:
+            rep.ok('R3d', name, '%d division(s), each of a component (parameter / loaded element, possibly through fabs) by the scale' % len(divs), loc=fn.loc(divs[0]))
 
 
 def norm_loops(ctx, name, table):
